@@ -171,6 +171,14 @@ func (fr *frame) oblige(kind, label string, guard, goal string, pos token.Pos, p
 
 func (fr *frame) oblige1(kind, label string, guard, goal string, pos token.Pos, props []string) *Obligation {
 	e := fr.e
+	if e.rootSpec != nil && e.rootSpec.Options["noimplicit"] != "" {
+		switch kind {
+		case "bounds", "divzero", "makeslice", "nilmap", "typeassert", "overflow", "panic", "floatconv", "nil":
+			// this function is under contract for its explicit clauses only; listed in evidence
+			e.skippedImplicit++
+			return &Obligation{Name: "skipped", Kind: kind, enc: e}
+		}
+	}
 	base := fmt.Sprintf("%s/%s#%s", shortFunc(e.root.String()), kind, label)
 	if fr.prefix != "" {
 		base = fmt.Sprintf("%s/%s#%s@%s", shortFunc(e.root.String()), kind, label, fr.prefix)
@@ -825,6 +833,19 @@ func (fr *frame) loopEnv(li *loopInfo, phiVal func(*ssa.Phi) string, st *state) 
 				}
 				if phi.Comment == "rangeindex" {
 					return binding{term: app("+", phiVal(phi), "1"), typ: phi.Type()}, true
+				}
+			}
+		}
+		if name == "rangelen" && li.isRangeIx {
+			// the length the range loop compares its index with (evaluated once, before the loop)
+			for _, instr := range li.header.Instrs {
+				if bo, ok := instr.(*ssa.BinOp); ok && bo.Op == token.LSS {
+					if t, ok := fr.vals[bo.Y]; ok {
+						return binding{term: t, typ: bo.Y.Type()}, true
+					}
+					if c, ok := bo.Y.(*ssa.Const); ok {
+						return binding{term: fr.e.constTerm(c), typ: c.Type()}, true
+					}
 				}
 			}
 		}
